@@ -989,22 +989,70 @@ func (e *effEngine) classifyWrite(w writeSite) classSet {
 	return e.classify(t)
 }
 
-// reachableFrom computes module functions reachable from the entries through the call graph.
+// reachableFrom computes module functions reachable from the entries through the call graph. The callback calls
+// inside commonmark.Walk are context-sensitive: only callbacks that a function already in the set stores into a
+// WalkOptions value are followed (the renderer's callbacks are not reachable from Format and vice versa), instead of
+// every function of a matching signature.
 func (e *effEngine) reachableFrom(entries []*ssa.Function) map[*ssa.Function]bool {
 	cg := e.p.CallGraph()
+	walk := e.p.Func("Walk")
 	seen := map[*ssa.Function]bool{}
+	// callbacks stored into WalkOptions (or any struct field of func type named Pre/Post/ChildCount/Child) by fn
+	callbacksOf := func(fn *ssa.Function) []*ssa.Function {
+		var out []*ssa.Function
+		for _, f := range withAnons(fn) {
+			eachInstr(f, func(in ssa.Instruction) {
+				st, ok := in.(*ssa.Store)
+				if !ok {
+					return
+				}
+				fa, ok := st.Addr.(*ssa.FieldAddr)
+				if !ok {
+					return
+				}
+				if tn, _, _ := fieldAddrInfo(fa); tn != "WalkOptions" {
+					return
+				}
+				if g := funcValueOf(st.Val); g != nil {
+					out = append(out, g)
+					// a bound-method wrapper or trampoline: also what it calls is found by the normal traversal
+				}
+			})
+		}
+		return out
+	}
+	allowed := map[*ssa.Function]bool{}
 	var visit func(n *callgraph.Node)
 	visit = func(n *callgraph.Node) {
 		if n == nil || n.Func == nil || seen[n.Func] {
 			return
 		}
 		seen[n.Func] = true
+		for _, cb := range callbacksOf(n.Func) {
+			allowed[cb] = true
+		}
 		for _, out := range n.Out {
+			if walk != nil && n.Func == walk && out.Site != nil && out.Site.Common().StaticCallee() == nil && !out.Site.Common().IsInvoke() {
+				continue // callback calls of Walk: handled below
+			}
 			visit(out.Callee)
 		}
 	}
 	for _, f := range entries {
 		visit(cg.Nodes[f])
+	}
+	// follow the allowed callbacks (to a fixed point: callbacks may start further walks)
+	for changed := true; changed; {
+		changed = false
+		if walk == nil || !seen[walk] {
+			break
+		}
+		for cb := range allowed {
+			if !seen[cb] {
+				visit(cg.Nodes[cb])
+				changed = true
+			}
+		}
 	}
 	return seen
 }
